@@ -8,7 +8,7 @@ the repository's own `wellFormedEscapeGraph`, status ≥ intrinsic, status close
 `lessEqual`, `matchesG`, `merge`, `addEdge`, `mergeNodeStatus` are the executable definitions the
 oracle runs against the real `LessEqual`, `Matches`, `Merge`, `AddEdge`, `MergeNodeStatus`.
 -/
-import Argot.Proofs.EGraphLattice
+import Argot.Proofs.EGraphAssign
 import Argot.Proofs.Fixpoint
 
 namespace Argot.EGraph
@@ -122,6 +122,76 @@ theorem merge_mono (hI : ∀ n, I n ≤ 2) {g g' h h' : EGraph} (hg : WF I g) (h
 /-- extensive: the primitives only add information -/
 theorem addEdge_extensive (hI : ∀ n, I n ≤ 2) {g : EGraph} (hg : WF I g) (a b : Node) (f : Flags) :
     lessEqual g (addEdge I g a b f) = true := (lessEqual_iff hg.toRep).2 (addEdge_le hI hg.toRep a b f)
+
+/-! ### composite operations
+
+`weakAssign`, `storeField`, `loadField` (Model/EGraph.lean) are checked against the real code by the
+correspondence M5, including subnode and load-node creation.  Proved here: the flat fragment (no
+subnode edge leaves the source, hence the node group is untouched) and `CallUnknown`.  The full
+statements are kept as `Prop`s. -/
+
+/-- **Full statement** (monotonicity of `WeakAssign` over a fixed node universe): -/
+def WeakAssignMonotone (ng : NG) : Prop :=
+  ∀ (g h : EGraph) (fuel : Nat) (d s : Node), WF ng.intr g → WF ng.intr h → lessEqual g h = true →
+    (weakAssign fuel ng g d s).1.next = ng.next → (weakAssign fuel ng h d s).1.next = ng.next →
+    lessEqual (weakAssign fuel ng g d s).2 (weakAssign fuel ng h d s).2 = true
+
+/-- **Full statement** for summary instantiation, for a function `call pre callee` standing for
+`EscapeGraph.Call` (u-edges, deferred representatives, load-node creation): monotone in the caller
+graph and in the callee summary.  `Call` is not modelled; this statement is supported only by the
+repository's own per-instruction monotonicity check, switched on and collected by the hook, and by
+the permuted-worklist runs (harness/cmd/c15 parts C and D). -/
+def CallMonotone (I : Node → Nat) (call : EGraph → EGraph → EGraph) : Prop :=
+  ∀ g g' c c', WF I g → WF I g' → WF I c → WF I c' → lessEqual g g' = true → lessEqual c c' = true →
+    lessEqual (call g c) (call g' c') = true
+
+/-- the simplest summary instantiation, `Merge`, satisfies the statement (non-vacuity of `CallMonotone`) -/
+theorem callMonotone_merge (hI : ∀ n, I n ≤ 2) : CallMonotone I (merge I) :=
+  fun _ _ _ _ hg hg' hc hc' h1 h2 => merge_mono hI hg hg' hc hc' h1 h2
+
+/-- `WeakAssign` on the flat fragment is the fold of `AddEdge(dest, p, internal)` over the pointees -/
+theorem weakAssign_flat_eq (ng : NG) (g : EGraph) (fuel : Nat) (dest src : Node)
+    (hns : NoSubOut (addNode ng.intr g dest) src) :
+    weakAssign (fuel + 1) ng g dest src = (ng, waFlat ng.intr g dest src) :=
+  weakAssign_flat ng g fuel dest src hns
+
+theorem weakAssign_preserves_wf_partial (ng : NG) (hI : ∀ n, ng.intr n ≤ 2) {g : EGraph} (hg : WF ng.intr g)
+    (fuel : Nat) (dest src : Node) (hns : NoSubOut (addNode ng.intr g dest) src) :
+    WF ng.intr (weakAssign (fuel + 1) ng g dest src).2 := by
+  rw [weakAssign_flat_eq ng g fuel dest src hns]; exact (waFlat_spec hI hg dest src).wf
+
+/-- **weakAssign_mono** (partial: no subnode edge leaves `src` in either graph) -/
+theorem weakAssign_mono_partial (ng : NG) (hI : ∀ n, ng.intr n ≤ 2) {g h : EGraph} (hg : WF ng.intr g)
+    (hh : WF ng.intr h) (hle : lessEqual g h = true) (fuel : Nat) (dest src : Node)
+    (hg' : NoSubOut (addNode ng.intr g dest) src) (hh' : NoSubOut (addNode ng.intr h dest) src) :
+    lessEqual (weakAssign (fuel + 1) ng g dest src).2 (weakAssign (fuel + 1) ng h dest src).2 = true := by
+  rw [weakAssign_flat_eq ng g fuel dest src hg', weakAssign_flat_eq ng h fuel dest src hh']
+  exact (lessEqual_iff (waFlat_spec hI hg dest src).wf.toRep).2
+    (waFlat_mono_le hI hg hh ((lessEqual_iff hg.toRep).1 hle) dest src)
+
+/-- what `WeakAssign(dest, src)` guarantees on the flat fragment: `dest` points (internally) to
+everything `src` points to, and the result is the least well-formed graph above `g` that does -/
+theorem weakAssign_flat_edges (hI : ∀ n, I n ≤ 2) {g : EGraph} (hg : WF I g) (dest src p : Node)
+    (hp : (g.fl src p).ext = true ∨ (g.fl src p).int = true) : ((waFlat I g dest src).fl dest p).int = true :=
+  (waFlat_spec hI hg dest src).edges p hp
+
+/-- leaking a set of nodes of the graph (`CallUnknown` on their pointers): well-formed, same edges,
+every given node leaked, and the least such status -/
+theorem leakAll_preserves_wf {g : EGraph} (hg : WF I g) (ns : List Node) (hns : ∀ n, n ∈ ns → n ∈ g.dom) :
+    WF I (ns.foldl (fun g n => mergeNodeStatus g n 2) g) := (leakAll_spec hg ns hns).1
+
+theorem leakAll_mono {g h : EGraph} (hg : WF I g) (hh : WF I h) (hle : lessEqual g h = true) (ns : List Node)
+    (hns : ∀ n, n ∈ ns → n ∈ g.dom) :
+    lessEqual (ns.foldl (fun g n => mergeNodeStatus g n 2) g) (ns.foldl (fun g n => mergeNodeStatus g n 2) h) = true := by
+  have hle' := (lessEqual_iff hg.toRep).1 hle
+  obtain ⟨g1, g2, g3, _, _, g6⟩ := leakAll_spec hg ns hns
+  obtain ⟨h1, h2, h3, h4, h5, _⟩ := leakAll_spec hh ns (fun n hn => hle'.dom n (hns n hn))
+  apply (lessEqual_iff g1.toRep).2
+  refine ⟨fun a b => by rw [g3, h3]; exact hle'.fl a b, fun x hx => by rw [h2]; rw [g2] at hx; exact hle'.dom x hx, ?_⟩
+  apply g6
+  · exact closedFl_of_le h1.closed (fun a b => by rw [h3]; exact hle'.fl a b)
+  · exact fun x => Nat.le_trans (hle'.st x) (h4 x)
+  · exact h5
 
 /-! ### non-vacuity and the role of the hypothesis -/
 
